@@ -28,6 +28,11 @@ def main(rep: Report, replay: dict | None) -> None:
     if replay:
         return
     renderop.run(rep)
+    # "never used afterwards": finalized (or otherwise unusable) render data handed to
+    # _from_render_data_ is rejected whoever owns it (RenderIterCtor.tla, OwnershipIrrelevant)
+    from .. import ctor_replay
+
+    ctor_replay.run(rep)
     rep.rule = (
         "spec->code: all edges of RenderIter (ownership x failing renders x close/drop) and of "
         "RenderOp (render/str/draw/iter x failure point) replayed on the real code with a "
